@@ -137,7 +137,9 @@ CHECKS["C18"] = {
 C20_CMD_RULE = ("cmd: every TCP command line of <=3 tokens from a 44-token alphabet (all 22 command words, options, names, "
                 "hex strings of odd/even length, empty quotes, over-long number, '-', a definition), thorough also every "
                 "4-token line of the 10 commands whose usage admits >=3 arguments; the same lines of <=2 (thorough 3) tokens "
-                "in direct mode; every HTTP request line 'GET <concatenation of <=3 (thorough 4) of 26 URI tokens incl. %, "
+                "in direct mode; every HISTORY of 2..3 (thorough 4) of 15 state-changing command lines on one daemon (definitions "
+                "added, replaced under another key incl. the key of a scan message, telegrams injected, scan, cache reads, reload); "
+                "every HTTP request line 'GET <concatenation of <=3 (thorough 4) of 26 URI tokens incl. %, "
                 "%n, %s, %*s> HTTP/1.1'; every assignment of 30 CSV column tokens to 2-3 (thorough 3) holes of 11 line frames "
                 "fed to the template loader, the message loader and the define/decode/encode commands; shapes: lines of <=4 "
                 "tokens from {empty token (= leading/trailing/double blanks, blanks only), \"a, b\", '', \", read, main}; every "
